@@ -559,6 +559,13 @@ func longHistory(id string, seed uint64, what string, n int) runner.Result {
 			}
 			return stream.MsgSend(&m, payload.Enc{})
 		}
+		if rpc == "/fail" {
+			if err := stream.MsgRecv(&m, payload.Enc{}); err != nil {
+				return err
+			}
+			// the error's text is as long as the request says
+			return errors.New(strings.Repeat("e", int(m[0])<<12|int(m[1])<<4))
+		}
 		k := 0
 		for stream.MsgRecv(&m, payload.Enc{}) == nil {
 			k++
@@ -575,6 +582,20 @@ func longHistory(id string, seed uint64, what string, n int) runner.Result {
 	defer rg.Teardown()
 	hist := fmt.Sprintf("%s | long history: %d %s", cfg.Desc, n, what)
 	op := rig.Go("long", func() (interface{}, error) {
+		if what == "unary RPCs that fail with long error texts" {
+			for i := 0; i < n; i++ {
+				// texts of 0 .. ~1 MiB, around the sizes at which frames are split
+				sz := []int{0, 1000, 4090, 4096, 65520, 65536, 70000, 131072, 200000, 1000000}[i%10]
+				in := []byte{byte(sz >> 12), byte(sz >> 4)}
+				var out []byte
+				if err := rg.Conn.Invoke(context.Background(), "/fail", payload.Enc{}, &in, &out); err == nil {
+					return nil, fmt.Errorf("rpc #%d: the handler failed and the call returned nil", i+1)
+				} else if rig.IsClosed(rg.Conn.Closed()) {
+					return nil, fmt.Errorf("rpc #%d (error text of about %d bytes): the connection is closed: %w", i+1, sz, err)
+				}
+			}
+			return nil, nil
+		}
 		if what == "unary RPCs on one connection" {
 			for i := 0; i < n; i++ {
 				in := []byte{byte(i), byte(i >> 8)}
@@ -742,10 +763,10 @@ func gen(tier string, seed uint64) []runner.Scenario {
 	longs := []struct {
 		what string
 		n    int
-	}{{"messages each way on one stream", 33500}, {"unary RPCs on one connection", 17000}}
+	}{{"messages each way on one stream", 33500}, {"unary RPCs on one connection", 17000}, {"unary RPCs that fail with long error texts", 30}}
 	if tier == "thorough" {
 		longs = append(longs, longs[0], longs[1])
-		longs[2].n, longs[3].n = 140000, 70000
+		longs[3].n, longs[4].n = 140000, 70000
 	}
 	for i, l := range longs {
 		i, l := i, l
@@ -776,7 +797,7 @@ func main() {
 	runner.Main(runner.Check{
 		Property: "C07",
 		Level:    "exploration",
-		Rule:     "five families. (late-calls) RPC 1 has ended (both half-closes / handler error / client Close), RPC 2 is under way, and 2-7 of SendError, Close, CloseSend, SendCancel, RawFlush, MsgSend, RawWrite are called on the stream object of RPC 1 in a seeded order, in half of the cases while RPC 2 is sending. (long-history) 33500 (thorough: 140000) one-byte messages each way on one stream, and 17000 (thorough: 70000) unary RPCs on one connection, sequentially: message and stream ids grow through the values at which their encoding changes length. (storm) one case = one storm on one connection: 2-5 RPCs; in each streaming RPC 2-5 client goroutines issue 1-5 of MsgSend (boundary sizes, multi-frame), CloseSend, Close, RawFlush, context cancel, MsgRecv on the shared stream; the handler runs 0-2 sender goroutines plus a reader and returns nil or an error, one time in four while its senders are still in flight; about one in seven of the first 60 writes of each endpoint is parked (before or after delivering its bytes) and released one at a time at quiescence; seeded configuration cell, both cancel modes, perturbed scheduling in half of the cases. (parked-terminal) a client send parked inside the transport, a concurrent Close/CloseSend/SendError parked at one of its three internal points, the server ending the RPC remotely, further RPCs started, then write and call released in turn. (raw-next-invoke) a manager-level server handling each stream in its own goroutine, a raw peer moving to the next stream without closing the previous while the reply is parked in the transport and the terminal call is parked. Non-trivial: more than 4 transport writes observed. Distinct: by configuration and storm seed (program text is determined by the seed).",
+		Rule:     "five families. (late-calls) RPC 1 has ended (both half-closes / handler error / client Close), RPC 2 is under way, and 2-7 of SendError, Close, CloseSend, SendCancel, RawFlush, MsgSend, RawWrite are called on the stream object of RPC 1 in a seeded order, in half of the cases while RPC 2 is sending. (long-history) 33500 (thorough: 140000) one-byte messages each way on one stream, 17000 (thorough: 70000) unary RPCs on one connection, and 30 unary RPCs whose handler fails with error texts of 0 bytes to 1 MB, sequentially: message and stream ids grow through the values at which their encoding changes length. (storm) one case = one storm on one connection: 2-5 RPCs; in each streaming RPC 2-5 client goroutines issue 1-5 of MsgSend (boundary sizes, multi-frame), CloseSend, Close, RawFlush, context cancel, MsgRecv on the shared stream; the handler runs 0-2 sender goroutines plus a reader and returns nil or an error, one time in four while its senders are still in flight; about one in seven of the first 60 writes of each endpoint is parked (before or after delivering its bytes) and released one at a time at quiescence; seeded configuration cell, both cancel modes, perturbed scheduling in half of the cases. (parked-terminal) a client send parked inside the transport, a concurrent Close/CloseSend/SendError parked at one of its three internal points, the server ending the RPC remotely, further RPCs started, then write and call released in turn. (raw-next-invoke) a manager-level server handling each stream in its own goroutine, a raw peer moving to the next stream without closing the previous while the reply is parked in the transport and the terminal call is parked. Non-trivial: more than 4 transport writes observed. Distinct: by configuration and storm seed (program text is determined by the seed).",
 		Assumptions: []string{
 			"the monitor reads the transport tap only; nothing about delivery is asserted here",
 			"a storm that cannot finish (application-level flow-control deadlock) is still judged on the bytes it wrote",
